@@ -744,3 +744,84 @@ def c13_grouped_rows(tier, rng):
                 "obligation": "C13.grouped_rows", "inputs": {"seed": base + k}, "observed": p[:3],
                 "required": "grouped rows partition the ungrouped counts", "replay_call": "contracts.c_profiles:replay_dump_rows"}]}
     return {"cases": n, "bound": "%d random counter pairs" % n, "violations": [], "samples": [{"seed": base}]}
+
+
+# ---- the literal sentence on near-duplicate features (two annotated exons within delta of each other) -----------------------------------------------
+def _near_dup_case(known, read_blocks, delta):
+    """the literal reading of C13: an annotated exon with a read exon within delta at both ends is contained in the read (marked 1);
+    returns the annotated exons for which that does not hold, and the exon profile"""
+    from functools import partial
+    lrp = native.repo_import("src/long_read_profiles.py")
+    com = native.repo_import("src/common.py")
+    region = (min(known[0][0], read_blocks[0][0]), max(max(k[1] for k in known), read_blocks[-1][1]))
+    c = lrp.OverlappingFeaturesProfileConstructor(known, region, comparator=partial(com.equal_ranges, delta=delta), delta=delta)
+    p = c.construct_exon_profile(read_blocks)
+    out = []
+    for i, f in enumerate(known):
+        near = [r for r in read_blocks if abs(r[0] - f[0]) <= delta and abs(r[1] - f[1]) <= delta]
+        if near and p.gene_profile[i] not in (1, -2):
+            out.append((i, f, near, p.gene_profile[i]))
+    return out, list(p.gene_profile)
+
+
+def kf_closest_feature_wins(inputs):
+    """known-finding class: every annotated exon that has a read exon within delta but is not marked contained has, for each such read exon,
+    a STRICTLY closer annotated exon (sum of the two boundary differences) that is marked contained - one read exon marks its closest
+    annotated match only; equally close ones must all be marked"""
+    known = [tuple(x) for x in inputs["known"]]
+    read = [tuple(x) for x in inputs["read"]]
+    bad, prof = _near_dup_case(known, read, inputs["delta"])
+    if not bad:
+        return False
+    dist = lambda r, f: abs(r[0] - f[0]) + abs(r[1] - f[1])
+    return all(any(prof[j] == 1 and dist(r, g) < dist(r, f) for j, g in enumerate(known) if j != i) for i, f, near, _v in bad for r in near)
+
+
+def replay_near_dup(d):
+    i = d["inputs"]
+    bad, prof = _near_dup_case([tuple(x) for x in i["known"]], [tuple(x) for x in i["read"]], i["delta"])
+    return (not bad), "known %s read %s delta %d: profile %s, %s" % (i["known"], i["read"], i["delta"], prof,
+                                                                   ["%s has a read exon within delta but is marked %d" % (f, v) for _i, f, _n, v in bad] or "as the sentence says")
+
+
+@finite("C13.near_duplicate_features", ["C13"], note="two annotated exons whose ends differ by 0..delta (delta in {1,2,4}) and a read with one inner exon "
+        "placed on every position within delta of either: the literal sentence - an annotated exon with a read exon within delta at both ends is "
+        "contained in the read - through the real OverlappingFeaturesProfileConstructor. The tool marks the closest annotated exon only (listed known finding); "
+        "an exon that is equally close and not marked, or any other deviation, is a violation")
+def c13_near_duplicates(tier, rng):
+    import itertools
+    obl = dis = 0
+    viol = []
+    in_class = 0
+    witness = None
+    for delta in (1, 2, 4):
+        for d1, d2 in itertools.product(range(0, delta + 1), repeat=2):
+            if d1 == d2 == 0:
+                continue
+            known = [(600, 700), (600 + d1, 700 + d2)]
+            for rs in range(600 - delta, 600 + 2 * delta + 1):
+                for re_ in range(700 - delta, 700 + 2 * delta + 1):
+                    read = [(100, 200), (rs, re_), (900, 1000)]
+                    obl += 1
+                    bad, prof = _near_dup_case(known, read, delta)
+                    if not bad:
+                        dis += 1
+                        continue
+                    inputs = {"known": known, "read": read, "delta": delta}
+                    if kf_closest_feature_wins(inputs):
+                        in_class += 1
+                        witness = witness or (inputs, bad, prof)
+                    elif len(viol) < 3:
+                        viol.append({"obligation": "C13.near_duplicate_features.d%d.%d_%d.%d_%d" % (delta, d1, d2, rs, re_), "inputs": inputs,
+                                     "observed": "profile %s: %s" % (prof, ["%s marked %d" % (f, v) for _i, f, _n, v in bad]),
+                                     "required": "every annotated exon with a read exon within delta is marked contained",
+                                     "replay_call": "contracts.c_profiles:replay_near_dup"})
+    if witness:
+        inputs, bad, prof = witness
+        viol.append({"obligation": "C13.near_duplicate_features.closest_wins", "inputs": inputs,
+                     "observed": "%d of %d placements: the read exon marks its closest annotated exon only, e.g. profile %s for read exon %s" % (in_class, obl, prof, inputs["read"][1]),
+                     "required": "every annotated exon with a read exon within delta is marked contained",
+                     "replay_call": "contracts.c_profiles:replay_near_dup"})
+    return {"obligations": obl, "discharged": dis, "violations": viol, "cases": obl, "exhaustive": True,
+            "bound": "delta in {1,2,4} x end differences 0..delta x read exon positions within delta of either exon",
+            "samples": [{"known": [(600, 700), (602, 700)], "read_exon": (602, 700), "delta": 2}]}
